@@ -31,7 +31,7 @@ def _drive(coro):
 
 
 @obligation(funcs=["storage.kv.KVGarbageCollector.collect", "storage.kv.LMDBStorage.delete_event", "storage.kv.WriterThread.run"],
-            params=range(4), timeout=(280, 1200),
+            params=range(4), timeout=(450, 1500),
             bounds="store of 2 events with kind from {1,19999,30000,0}, created_at symbolic 1..200 and an expiration tag by symbolic "
                    "selector from {none, T-1, T, T+1, far future, malformed, empty, value with fewer digits than T}; T by PARAM from "
                    "{1700000000, 1000, 999, 2000000000}; quick tier: second event regular kind, first event without tag, with T-1 or with T+1")
@@ -155,7 +155,7 @@ def ob_driver_survives(f0: bool, f1: bool, f2: bool) -> str:
 
 
 @obligation(funcs=["storage.db.QueryGarbageCollector.collect", "storage.db.DBStorage.add_event", "storage.db.DBStorage.process_tags"],
-            params=range(4), timeout=(280, 1200),
+            params=range(4), timeout=(450, 1500),
             bounds="SQL backend on the engine model: store of 2 events (kind from {1,19999,20000,29999,30000}, expiration tag by "
                    "selector from {none, T-1, T, T+1, far future, malformed, empty, fewer digits, digit-prefixed text}); one "
                    "collector pass at T (PARAM): exactly the ephemeral kinds and the well-formed expired timestamps are removed, "
